@@ -48,6 +48,9 @@ type request struct {
 
 func paramShapes(desc sim.ModelDescription) []string {
 	out := []string{"none", "all", "all+unknown", "reversed"}
+	if len(desc.Parameters) > 0 {
+		out = append(out, "case-variant") // the first parameter only under a name that differs in case: not that parameter
+	}
 	for i := range desc.Parameters {
 		out = append(out, "only:"+strconv.Itoa(i))
 	}
@@ -60,6 +63,9 @@ func inputShapes(desc sim.ModelDescription) []string {
 	out := []string{"all", "all-missing", "extra", "reversed", "extra-first", "extra-longer", "extreme"}
 	for i := range desc.Inputs {
 		out = append(out, "missing:"+strconv.Itoa(i), "longer:"+strconv.Itoa(i), "shorter:"+strconv.Itoa(i))
+		if len(desc.Inputs) > 1 {
+			out = append(out, "empty:"+strconv.Itoa(i)) // an explicit [] next to longer series: unequal lengths, not a missing input
+		}
 	}
 	return out
 }
@@ -91,6 +97,20 @@ func paramsFor(t tables.Table, desc sim.ModelDescription, shape string) ([]nv, [
 		}
 	case shape == "reversed":
 		for i := len(desc.Parameters) - 1; i >= 0; i-- {
+			add(i)
+		}
+	case shape == "case-variant":
+		name := desc.Parameters[0].Name
+		swapped := strings.ToUpper(name)
+		if swapped == name {
+			swapped = strings.ToLower(name)
+		}
+		v := desc.Parameters[0].Default + 1
+		if len(src) > 0 && !hasDims(desc) {
+			v = src[0] + 1
+		}
+		list = append(list, nv{swapped, v})
+		for i := 1; i < len(desc.Parameters); i++ {
 			add(i)
 		}
 	default:
@@ -147,6 +167,8 @@ func inputsFor(t tables.Table, desc sim.ModelDescription, shape string, T int) (
 			L = T + 2
 		case kind == "shorter" && i == idx:
 			L = T - 1
+		case kind == "empty" && i == idx:
+			L = 0
 		}
 		s := series(t, i, L)
 		if kind == "extreme" {
@@ -174,7 +196,7 @@ func inputsFor(t tables.Table, desc sim.ModelDescription, shape string, T int) (
 	if kind == "all-missing" {
 		errCase = true
 	}
-	if (kind == "longer" || kind == "shorter") && n > 1 {
+	if (kind == "longer" || kind == "shorter" || kind == "empty") && n > 1 {
 		errCase = true // unequal lengths
 	}
 	if (kind == "longer" || kind == "shorter") && n == 1 {
